@@ -147,6 +147,18 @@ def c12_r3(ctx):
             ctx.ok()
         else:
             ctx.viol((f.id, "unsorted", k), "%s are not sorted before the plan is numbered: the plan (and every rule identity and sources hash derived from it) depends on the order of lines in the rules file" % k, f.where(lp["header"]))
+    # every traversal of rule.targets / rule.sources that hands out positions (sub-indices) sees the sorted order
+    for fld in ("targets", "sources"):
+        srt = [s2 for s2 in sorts if all(any(o[:len(e)] == e for e in lp["elem"]) and o[-1] == ("field", fld) for o in f.origins_of_operand(s2.args[0])) and f.origins_of_operand(s2.args[0])]
+        for l2 in f.loops():
+            if l2["header"] == lp["header"] or l2["header"] not in lp["body"]:
+                continue
+            if l2["iter"] and all(any(o[:len(e)] == e for e in lp["elem"]) and ("field", fld) in o for o in l2["iter"]):
+                ctx.inst("traversal of rule.%s" % fld, f.where(l2["header"]))
+                if srt and f.dominated_by_blocks(l2["header"], [s2.bb for s2 in srt]):
+                    ctx.ok()
+                else:
+                    ctx.viol((f.id, "positions-before-sort", fld), "positions in rule.%s are handed out before the list is sorted: the recorded sub-index then names a different target than the same position in the (sorted) node, so a dependent is sent a sibling target's hash" % fld, f.where(l2["header"]))
     # the frame is built from this iteration's (sorted) rule and the running index
     ro = f.origins_of_operand(fc.args[0])
     if ro != lp["elem"]:
